@@ -31,9 +31,11 @@ ASSUMPTIONS = ['faults are injected at instrumented sub-step boundaries (DocActi
                'the re-append of the popped ModifyColumn undo in doModifyColumn\'s `finally` is not a fault position',
                'C04_rollback_partial: crash point between doc actions or anywhere inside [Bulk]AddRecord / '
                '[Bulk]UpdateRecord (covered_point), no pending calc delta, no ReplaceTableData in the bundle; '
-               'C04_pending_calc_rolled_back: pending deltas of ONE recomputed column in bundles of record updates and '
-               'recalculations, at event boundaries; pending deltas combined with row/schema actions or several '
-               'recomputed columns are covered by the rollback-prediction tie and the enumeration only; the remaining '
+               'C04_pending_calcs_with_removes_rolled_back: pending deltas of any recomputed columns in bundles of '
+               'record updates, adds (of row ids the checkpoint table lacks), removes and recalculations, at event '
+               'boundaries; a removed row id coming back is refuted (C04_refuted_readded_row); pending deltas combined '
+               'with schema actions are covered by the rollback-prediction tie and the enumeration only '
+               '(C04_rollback_partial_snapshot covers schema actions without pending deltas); the remaining '
                'crash points are refuted by the C04_refuted_* witnesses (known findings)',
                'failures after the last user action (recalculation, auto-removals, final flush) and the sorted-lookup '
                'cache are outside the model: found by the implementation oracle only']
@@ -42,8 +44,9 @@ TECHNIQUE = ('Coq proof over a hand-written micro-step model of doc actions and 
 LEVEL_TEXT = ('Kernel-checked theorems about a micro-step model of the 14 doc actions, apply_doc_action\'s schema '
               'restore, the flush of pending calc deltas and _undo_to_checkpoint: flush + rollback restores document '
               'and schema for every crash point between doc actions and inside undo-first actions when no calc delta '
-              'is pending (all documents, all event sequences), and with pending deltas of one recomputed column in '
-              'update/recalculation bundles; vm_compute counterexamples for the crash points where the unchanged code does leave a '
+              'is pending (all documents, all event sequences), and with pending deltas of any number of recomputed '
+              'columns in bundles of record updates, adds and removes (no removed row id of the checkpoint coming back) '
+              'at every event boundary; vm_compute counterexamples for the crash points where the unchanged code does leave a '
               'trace, each replayed on the real engine; the model is tied to the engine on every run and every '
               'crash point of generated bundles is enumerated on the implementation.')
 LEVEL_NOTE = ('kernel strength: useractions.py and formula evaluation are an environment (arbitrary event sequences). '
